@@ -536,6 +536,13 @@ def unpackLeb (signed : Bool) (data : Bytes) (pos : Nat) : Option (Val × Nat ×
   | some (v, n) => some (.int v, n, ones n)
   | none => none
 
+/-- the LEB128 number at `pos` is encoded canonically (ghost: see `withFlag`) -/
+def lebCanonAt (signed : Bool) (data : Bytes) (pos : Nat) : Bool :=
+  match Leb128.readLeb signed data pos with
+  | some (_, n) =>
+    if signed then Leb128.canonS ((data.drop pos).take n) else Leb128.canonU ((data.drop pos).take n)
+  | none => true
+
 /-- `Leb128Field.pack` (`write_uleb128` of a negative value does not terminate: `none`) -/
 def packLeb (signed : Bool) (v : Val) : Option Bytes :=
   match v with
@@ -555,21 +562,31 @@ def store (f : Field) (v : Val) (ns : NS) : NS :=
      | _ => ns)
   | _ => nsSet ns f.name v
 
+/-- ghost flag of an unpack result: every LEB128 number read was in canonical (shortest) form —
+    the only encodings `pack` can reproduce.  Always `true` for the other field kinds. -/
+def withFlag (c : Bool) : Option (Val × Nat × Bytes) → Option (Val × Nat × Bytes × Bool)
+  | some (v, n, m) => some (v, n, m, c)
+  | none => none
+
+/-- the element stride of `Field.unpack`: the type's size when finite, else the `len()` just read -/
+def pickStride (stride : Option Nat) (n : Nat) : Nat :=
+  match stride with
+  | some s => s
+  | none => n
+
 /-- `Field.unpack` for `count > 0`: `count` elements, each read where the previous one ended
     (`stride`: the type's size when finite, else the `len()` of the element just read) -/
-def repeatAt (g : Nat → Option (Val × Nat × Bytes)) (stride : Option Nat) :
-    Nat → Nat → Option (List Val × Nat × Bytes)
-  | 0, _ => some ([], 0, [])
+def repeatAt (g : Nat → Option (Val × Nat × Bytes × Bool)) (stride : Option Nat) :
+    Nat → Nat → Option (List Val × Nat × Bytes × Bool)
+  | 0, _ => some ([], 0, [], true)
   | k + 1, pos =>
     match g pos with
     | none => none
-    | some (v, n, m) =>
-      let st := match stride with
-        | some s => s
-        | none => n
+    | some (v, n, m, c) =>
+      let st := pickStride stride n
       match repeatAt g stride k (pos + st) with
       | none => none
-      | some (vs, n', m') => some (v :: vs, st + n', m ++ m')
+      | some (vs, n', m', c') => some (v :: vs, st + n', m ++ m', c && c')
 
 /-- the struct part of the tail of `StructCore.pack`: parts are `(align_value, bytes)` per field,
     each preceded by the padding that aligns the running offset -/
@@ -612,36 +629,36 @@ end
 
 mutual
 /-- `f.unpack(data, pos, psize)` followed by `f.size(psize)`: value, size, mask -/
-def unpackField (ps : Nat) (data : Bytes) (pos : Nat) (ns : NS) : Field → Option (Val × Nat × Bytes)
-  | .raw _ t be count => unpackRaw ps t be count data pos
-  | .bits t be names sizes => unpackBits ps t be names sizes data pos
-  | .var _ t be => unpackVar ps t be data pos
-  | .cnt _ t be ct => unpackCnt ps t be ct data pos
-  | .bound _ t be ref => unpackBound ps t be ref ns data pos
-  | .leb _ signed => unpackLeb signed data pos
+def unpackField (ps : Nat) (data : Bytes) (pos : Nat) (ns : NS) : Field → Option (Val × Nat × Bytes × Bool)
+  | .raw _ t be count => withFlag true (unpackRaw ps t be count data pos)
+  | .bits t be names sizes => withFlag true (unpackBits ps t be names sizes data pos)
+  | .var _ t be => withFlag true (unpackVar ps t be data pos)
+  | .cnt _ t be ct => withFlag true (unpackCnt ps t be ct data pos)
+  | .bound _ t be ref => withFlag true (unpackBound ps t be ref ns data pos)
+  | .leb _ signed => withFlag (lebCanonAt signed data pos) (unpackLeb signed data pos)
   | .nest _ ty count =>
     if count = 0 then
       match unpackDef ps data pos ty with
-      | some (v, n, m) =>
+      | some (v, n, m, c) =>
         -- Field.size: the type's size when finite, else len(value)
         (match ty.sizeV ps with
-         | some s => some (v, s, m)
-         | none => some (v, n, m))
+         | some s => some (v, s, m, c)
+         | none => some (v, n, m, c))
       | none => none
     else
       match repeatAt (fun p => unpackDef ps data p ty) (ty.sizeV ps) count pos with
-      | some (vs, n, m) => some (.seq vs, n, m)
+      | some (vs, n, m, c) => some (.seq vs, n, m, c)
       | none => none
   | .bitsEx ty names sizes =>
     match unpackDef ps data pos ty with
-    | some (.int u, _, _) =>
+    | some (.int u, _, _, c) =>
       (match ty.sizeV ps with
-       | some s => some (.dict (splitBits u names sizes 0), s, bitsMask (bitsExBE ty) s (coveredBits names sizes))
+       | some s => some (.dict (splitBits u names sizes 0), s, bitsMask (bitsExBE ty) s (coveredBits names sizes), c)
        | none => none)
     | _ => none
 /-- `cls().unpack(data, pos, psize)`: value (the instance, or the field value for a typedef),
     `len()` of the result, mask -/
-def unpackDef (ps : Nat) (data : Bytes) (pos : Nat) : Def → Option (Val × Nat × Bytes)
+def unpackDef (ps : Nat) (data : Bytes) (pos : Nat) : Def → Option (Val × Nat × Bytes × Bool)
   | .mk kind packed fs =>
     let A := if packed then 1 else maxList (alignVs ps fs)
     match kind with
@@ -649,45 +666,53 @@ def unpackDef (ps : Nat) (data : Bytes) (pos : Nat) : Def → Option (Val × Nat
       (match fs with
        | f :: _ =>
          (match unpackField ps data pos [] f with
-          | some (v, sz, m) => some (v, padTail packed A sz, m ++ zeros (padTail packed A sz - sz))
+          | some (v, sz, m, c) => some (v, padTail packed A sz, m ++ zeros (padTail packed A sz - sz), c)
           | none => none)
        | [] => none)
     | _ =>
       match unpackFields ps data pos (kind == .union) packed fs 0 [] with
       | some (ns, res) =>
         let len := padTail packed A (lenLoop ps (kind == .union) packed fs (res.map (fun r => some r.2.1)) 0)
-        some (.inst ns len, len, assemble (kind == .union) packed A (zipAligns ps fs (res.map (·.2.2))))
+        some (.inst ns len, len, assemble (kind == .union) packed A (zipAligns ps fs (res.map (·.2.2.1))),
+              res.all (·.2.2.2))
       | none => none
 /-- the `for f in self.fields` loop of `StructCore.unpack` (field alignment relative to the start
     `base` of the structure); result: namespace and, per field, (value, size, mask) -/
 def unpackFields (ps : Nat) (data : Bytes) (base : Nat) (isUnion packed : Bool) :
-    List Field → Nat → NS → Option (NS × List (Val × Nat × Bytes))
+    List Field → Nat → NS → Option (NS × List (Val × Nat × Bytes × Bool))
   | [], _, ns => some (ns, [])
   | f :: fs, rel, ns =>
     let rel1 := if !isUnion && !packed then alignTo rel (f.alignV ps) else rel
     match unpackField ps data (base + rel1) ns f with
     | none => none
-    | some (v, sz, m) =>
+    | some (v, sz, m, c) =>
       let ns1 := store f v ns
       let rel2 := if isUnion then rel1 else rel1 + sz
       match unpackFields ps data base isUnion packed fs rel2 ns1 with
       | none => none
-      | some (ns2, res) => some (ns2, (v, sz, m) :: res)
+      | some (ns2, res) => some (ns2, (v, sz, m, c) :: res)
 end
 
 /-! ## pack -/
+
+/-- `D[x] = getattr(self._v, x)` for a bit-field part (its value must be an integer) -/
+def partOf (ns : NS) (nm : String) : Option (String × Int) :=
+  match nsGet ns nm with
+  | some (.int x) => some (nm, x)
+  | _ => none
+
+/-- one element of the `data` list `StructCore.pack` builds from the instance namespace: the value
+    of a named field, or the dictionary of the parts of a bit-field -/
+def collectAt (ns : NS) : Field → Option Val
+  | .bits _ _ names _ => (names.mapM (partOf ns)).map .dict
+  | .bitsEx _ names _ => (names.mapM (partOf ns)).map .dict
+  | f => nsGet ns f.name
 
 /-- the `data` list `StructCore.pack` builds from the instance namespace when `data is None` -/
 def collect (ns : NS) : List Field → Option (List Val)
   | [] => some []
   | f :: fs =>
-    let here : Option Val := match f with
-      | .bits _ _ names _ | .bitsEx _ names _ =>
-        (names.mapM (fun nm => match nsGet ns nm with
-           | some (.int x) => some (nm, x)
-           | _ => none)).map .dict
-      | _ => nsGet ns f.name
-    match here, collect ns fs with
+    match collectAt ns f, collect ns fs with
     | some v, some r => some (v :: r)
     | _, _ => none
 
@@ -756,28 +781,83 @@ end
 /-- `instance.pack(None, psize)` on the result of `unpackDef` -/
 def packDef (ps : Nat) (d : Def) (v : Val) : Option Bytes := packOne ps d v
 
-/-! ## the modelled fragment -/
+/-! ## the modelled fragment and the well-formedness conditions of the round-trip theorem -/
 
 mutual
-def Field.modelled : Field → Bool
+/-- constructs the model mirrors faithfully (everything else: the driver answers "unmodelled") -/
+def Field.modelled (ps : Nat) : Field → Bool
   | .raw .. => true
   | .bits .. => true
   | .var _ t _ => t.varOK
   | .cnt _ t _ ct => t.varOK && (ct == .b || ct == .B || ct == .h || ct == .H || ct == .i || ct == .I)
   | .bound _ t _ _ => t.varOK
   | .leb .. => true
-  | .nest _ ty _ => ty.modelled
-  | .bitsEx ty _ _ => ty.modelled && (ty.sizeV 0).isSome
-def Def.modelled : Def → Bool
+  | .nest _ ty _ => ty.modelled ps
+  | .bitsEx ty _ _ => ty.modelled ps && (ty.sizeV ps).isSome
+def Def.modelled (ps : Nat) : Def → Bool
   | .mk kind _ fs =>
-    fieldsModelled fs && !fs.isEmpty &&
+    fieldsModelled ps fs && !fs.isEmpty &&
       (match kind with
        | .struct => true
        -- unions and typedefs of variable-length members are outside the fragment
-       | _ => (sizeLoop 0 true true fs 0).isSome)
-def fieldsModelled : List Field → Bool
+       | _ => (sizeLoop ps true true fs 0).isSome)
+def fieldsModelled (ps : Nat) : List Field → Bool
   | [] => true
-  | f :: fs => f.modelled && fieldsModelled fs
+  | f :: fs => f.modelled ps && fieldsModelled ps fs
+end
+
+mutual
+/-- the integer scalar (letter, byte order) a chain of typedefs ends in -/
+def intChain : Def → Option (Letter × Bool)
+  | .mk kind _ fs => if kind == .typedef then intChainFields fs else none
+def intChainFields : List Field → Option (Letter × Bool)
+  | [f] => intChainField f
+  | _ => none
+def intChainField : Field → Option (Letter × Bool)
+  | .raw _ t be count => if count = 0 && (t.enc == .sint || t.enc == .uint) then some (t, be) else none
+  | .nest _ ty count => if count = 0 then intChain ty else none
+  | _ => none
+end
+
+/-- the names a field contributes to the instance namespace -/
+def Field.names : Field → List String
+  | .bits _ _ names _ => names
+  | .bitsEx _ names _ => names
+  | f => [f.name]
+
+def allNames : List Field → List String
+  | [] => []
+  | f :: fs => f.names ++ allNames fs
+
+mutual
+/-- hypotheses of the round-trip theorem, all decidable on the definition:
+    distinct member names; bit-field parts named one to one, over an integer storage type whose sign
+    bit stays uncovered when the type is signed (see the known finding otherwise);
+    typedefs of a single scalar, array or previously defined type -/
+def Field.wf (ps : Nat) : Field → Bool
+  | .bits t _ names sizes =>
+    names.length == sizes.length && (t.enc == .sint || t.enc == .uint) &&
+      (t.enc != .sint || decide (coveredBits names sizes < 8 * rawSize ps t))
+  | .bitsEx ty names sizes =>
+    ty.wf ps && names.length == sizes.length &&
+      (match intChain ty with
+       | some (t, _) => t.enc != .sint || decide (coveredBits names sizes < 8 * rawSize ps t)
+       | none => false)
+  | .nest _ ty _ => ty.wf ps
+  | _ => true
+def Def.wf (ps : Nat) : Def → Bool
+  | .mk kind packed fs =>
+    fieldsWf ps fs && decide (allNames fs).Nodup &&
+      (match kind with
+       | .typedef => !packed && typedefShape fs
+       | _ => true)
+def fieldsWf (ps : Nat) : List Field → Bool
+  | [] => true
+  | f :: fs => f.wf ps && fieldsWf ps fs
+def typedefShape : List Field → Bool
+  | [.raw ..] => true
+  | [.nest ..] => true
+  | _ => false
 end
 
 /-! ## C ABI reference (independent of the code's algorithm) -/
@@ -850,11 +930,11 @@ def refMembers (ps : Nat) : List Field → Option (List (Nat × Nat))
 end
 
 /-- what `offsets()` should list for a fixed-size definition, from the reference layout -/
-def refEntries (ps : Nat) : List Field → List Nat → List OffEntry
+def refEntries (ps : Nat) (isUnion : Bool) : List Field → List Nat → List OffEntry
   | f :: fs, o :: os =>
-    (match f.subsizes? with
+    (match (if isUnion then none else f.subsizes?) with
      | some sizes => bitEntries o sizes 0
-     | none => [.field o ((refField ps f).map (·.1))]) ++ refEntries ps fs os
+     | none => [.field o ((refField ps f).map (·.1))]) ++ refEntries ps isUnion fs os
   | _, _ => []
 
 /-- `count` consecutive elements of `stride` bytes decoded by `g` from the start of `bs` -/
